@@ -150,6 +150,37 @@ deriving DecidableEq, Repr
 
 /-! ## views of repository structs (only the fields the translated functions touch) -/
 
+/-- `networking.IngressClass` as the class test sees it -/
+structure IngressClassView where
+  controller : String
+deriving DecidableEq, Repr, Inhabited
+
+/-- `services.Config` fields read by `IsValidIngress` -/
+structure CacheConfigView where
+  WatchIngressWithoutClass : Bool
+  IngressClass : String
+  IngressClassPrecedence : Bool
+  ControllerName : String
+deriving Repr
+
+/-- the cache facade `c`: its configuration and the cache read `GetIngressClass(name)` =
+(pointer to the object — `cache.get` fills a zero value also when the read fails —, error or nil) -/
+structure CacheView where
+  config : CacheConfigView
+  getIngressClass : String → Option IngressClassView × Option Unit
+
+/-- `networking.Ingress` as `IsValidIngress` sees it: the comma-ok read of the class annotation and
+`spec.ingressClassName` (a `*string`) -/
+structure IngressView where
+  annClass : String × Bool
+  className : Option String
+deriving Repr
+
+/-- `*p` of a `*string` the code has tested against nil -/
+def deref (p : Option String) : String := p.getD ""
+/-- field access through a pointer the code has tested against nil -/
+def derefClass (p : Option IngressClassView) : IngressClassView := p.getD default
+
 /-- `workqueue.reloadHAProxy` (the mutex is not state) -/
 structure ReloadHAProxy where
   interval : Int
